@@ -190,6 +190,14 @@ def rule_alts(ctx, fmt):
             if "FLAG_SEGMENTED" in t and "&" in t:
                 refuse = any(isinstance(s, ast.Raise) for s in n.body)
     ctx.check("C02.alts", infl, wg, "deflated frame", "a frame with the deflate flag set is not inflated before parsing", "inflated with zlib")
+    # ... and inflated completely: a bounded decompress (max_length) silently truncates a large stanza unless the
+    # unconsumed tail is examined
+    dcalls = [c for c in ast.walk(gp) if isinstance(c, ast.Call) and isinstance(c.func, ast.Attribute) and c.func.attr == "decompress"]
+    bounded = [c for c in dcalls if len(c.args) > 1 or any(k.arg in ("max_length", "bufsize") for k in c.keywords)]
+    examined = any(isinstance(a, ast.Attribute) and a.attr in ("unconsumed_tail", "eof") for a in ast.walk(gp))
+    ctx.check("C02.alts", bool(dcalls) and (not bounded or examined), wg, "deflated frame inflated completely",
+              "the inflater is given an output limit (%s) and nothing checks for unconsumed input: a stanza that inflates to more than the limit is silently truncated" % (unparse(bounded[0])[:60] if bounded else ""),
+              "whole stanza inflated")
     ctx.check("C02.alts", refuse, wg, "segmented frame", "a segmented frame must be refused, not parsed as a whole stanza", "refused")
 
 
@@ -252,7 +260,7 @@ def rule_codec(ctx):
     declares the true length in the form it chose (C02.enc), and the reader of packed strings yields the format's
     alphabet for every header byte (C02.unpack; the alphabets themselves are compared with the format table by C02.spec)"""
     scratch = Ctx(ctx.repo, "C01", ctx.tier)
-    for r in ("C01.tags", "C01.int", "C01.class", "C01.pack", "C01.dbl", "C01.unpack", "C01.count"):
+    for r in ("C01.tags", "C01.int", "C01.class", "C01.pack", "C01.dbl", "C01.unpack", "C01.count", "C01.str", "C01.node", "C01.layer"):
         scratch.rule(r, "", 0)
     widths = c01.rule_int(scratch)
     c01.rule_class(scratch, widths)
@@ -261,14 +269,17 @@ def rule_codec(ctx):
     if tables:
         c01.rule_unpack(scratch, tables)
     c01.rule_count(scratch)
-    ctx.adopt(scratch, {"C01.int": "C02.enc", "C01.class": "C02.enc", "C01.count": "C02.enc", "C01.unpack": "C02.unpack"})
+    for fn_ in (c01.rule_str, c01.rule_node, c01.rule_layer):
+        ctx.guarded("C02.enc", fn_, scratch)
+    ctx.adopt(scratch, {"C01.int": "C02.enc", "C01.class": "C02.enc", "C01.count": "C02.enc", "C01.str": "C02.enc", "C01.node": "C02.enc", "C01.layer": "C02.enc", "C01.unpack": "C02.unpack"})
 
 
 def run(ctx):
+    ctx.rule("C02.sent", "stanzas built by the library's own entities are well-formed for the codec (C09.codec adopted)", floor=40)
     ctx.rule("C02.enc", "integer writers are exact and every size-class branch declares a length that fits the form it writes", floor=13)
     ctx.rule("C02.unpack", "packed strings: reader abstractly executed per (kind, header byte) yields the format's alphabet", floor=6)
     ctx.rule("C02.spec", "encoder/decoder vocabulary equals the independently transcribed format table", floor=9)
-    ctx.rule("C02.alts", "decoder accepts every alternative form the format permits", floor=28)
+    ctx.rule("C02.alts", "decoder accepts every alternative form the format permits", floor=29)
     ctx.rule("C02.type", "decoder passes bytes as node content on every content branch", floor=4)
     ctx.rule("C02.dictref", "token tables equal the reference copy", floor=4)
     ctx.rule("C02.flags", "frame flag constants", floor=2)
@@ -281,3 +292,6 @@ def run(ctx):
     ctx.guarded("C02.dictref", rule_dictref, ctx)
     ctx.guarded("C02.flags", rule_flags, ctx, fmt)
     ctx.guarded("C02.codec", rule_codec, ctx)
+    # the stanzas the library itself builds are well-formed for the codec (C09.codec), adopted
+    from . import c09
+    ctx.adopt_from("C09", [(c09.rule_codec_sent_only, (ctx.repo,))], {"C09.codec": "C02.sent", "C09.ret": "C02.sent"})
